@@ -6,7 +6,7 @@ import os
 VERIF = os.path.dirname(os.path.dirname(os.path.abspath(__file__)))
 
 TRUSTED = ('Trusted base: /verif/contracts/prelude.rs (assumed contracts of std::io::{Read,BufRead,Write}, byteorder and crc shims, '
-           'Cursor/Vec/slice methods, src_eq axioms), extraction rewrites R0-R18 (DESIGN.md A.2), 64-bit usize, A-CNT counter-overflow '
+           'Cursor/Vec/slice methods, src_eq axioms), extraction rewrites R0-R20 (DESIGN.md A.2), mem::axiom_alloc_held (allocation justified by data held), 64-bit usize, A-CNT counter-overflow '
            'assume sites, Verus 0.2026.09.13 + Z3. Functions not under contract are external_body and listed in the evidence file.')
 
 # property -> (claimed?, level text, technique, design ref, n/a reason)
@@ -189,14 +189,14 @@ def main():
         'setup_cmd': 'mkdir -p gen evidence replays .cache && verus --version >/dev/null',
         'hooks': {
             'guard': 'lzma_rs_verif',
-            'enable': 'no source hooks in /repo: Verus reads /repo/src directly (mechanical extraction on every run); Kani/native '
-                      'harness modules are appended to a scratch copy of /repo under the cfg lzma_rs_verif at run time',
+            'enable': 'no source hooks in /repo: Verus reads /repo/src directly (mechanical extraction on every run); the thorough tier '
+                      'copies findings/witness.rs into tests/ of a scratch copy of /repo under /var/tmp and runs it there (nothing is added to /repo, so the guard is unused)',
             'baseline_off_cmd': 'cd /repo && cargo test --workspace --no-fail-fast --offline',
             'source_commits': [],
             'add_only': True,
         },
         'engines': [{'name': 'vcheck', 'path': '/verif/vcheck', 'serves_properties': [c['property_id'] for c in checks],
-                     'kind_free_text': 'mechanical extractor + contract overlay + Verus (Z3) deductive verifier; Kani for loop-free complete harnesses and counterexamples'}],
+                     'kind_free_text': 'mechanical extractor + contract overlay + Verus (Z3) deductive verifier; native replay of committed witnesses in the thorough tier (a Kani bounded stand-in was tried and dropped, DESIGN.md A.8)'}],
         'checks': checks,
         'not_applicable': na,
         'notes': 'Exit 2 (UNDECIDED) is used for tool limits (lost anchor, rlimit, unsupported construct) and never occurs on the unchanged tree.',
